@@ -8,7 +8,7 @@ COQ_IMPORTS = "From FT Require Import Model.Base Model.Obs Model.Store Model.Sto
 CHECK_VO = ["Model/StoreCheck.v"]
 CHECKER = "c01_checker"
 CASE_TYPE = "hist_case"
-EXTRA = ["c01_pop"]   # populate loops: C05's cases and model, this property's oracle
+EXTRA = ["c01_pop", "c01_unowned"]   # populate loops: C05's cases and model, this property's oracle
 SHARD = 120
 RULE = ("case = (tensor tree of depth 1-3 with explicit defaults / empty sub-fibers, leaf default, history of "
         "1-10 public operations addressed by coordinate path); observation = state snapshot (raw tree, per-rank "
@@ -22,9 +22,11 @@ TRUSTED = ["Coq 8.16.1 kernel (coqc; coqchk in the thorough tier); vm_compute us
            "harness/store_hist.py (generator, implementation driver, snapshot), harness/check.py"]
 ASSUMPTIONS = ["operation set of the model: getPayloadRef(+write through the reference), getPayload, append, __setitem__, clear, "
                "updateCoords (affine maps +-c+k, i.e. injective: the documented 'unique not checked' domain), updatePayloads (p+k), "
-               "iterRangeShapeRef, getPosition/getPositionRef/getPayload/getPayloadRef with start_pos; tensors (owned trees) of depth 1-3. "
-               "extend, fiber-valued append/setitem, fiber in-place arithmetic, <<= on fibers and populate loops are NOT in this model "
-               "(populate: C05)",
+               "iterRangeShapeRef, getPosition/getPositionRef/getPayload/getPayloadRef with start_pos; fiber-valued mutators (argument fiber given as a tree literal of the matching depth with strictly increasing coordinates, built unowned with the leaf default at the leaf rank and default Fiber at interior ranks): append(c, fiber) and __setitem__(pos, fiber) on interior fibers, extend(fiber) and fiber <<= fiber at any rank; "
+               "tensors (owned trees) of depth 1-3. Fiber in-place arithmetic and populate loops are NOT in this model (populate: C05)",
+               "the model builds the sub-fibers of an append/extend/__setitem__ argument afresh; in Python they are the caller's objects, "
+               "shared with the argument fiber (aliasing through the argument after the call is outside the model); an argument whose "
+               "default is only guessed (an empty unowned interior fiber) makes <<= overwrite the owning rank's default - outside the explored domain",
                "fibers are addressed by coordinate path; leaf references are written through immediately (no stale handles)"]
 case_to_coq = H.case_to_coq
 run_impl = H.run_impl
